@@ -1914,5 +1914,7 @@ func CopyQuery(query *Query) *Query {
 		orderByDefinition: query.orderByDefinition,
 		options:           query.options,
 		postProcessors:    query.postProcessors,
+		// aggregates and ONCE calls of the copy memoise into their own map
+		singletonExecutions: make(map[string]any),
 	}
 }
